@@ -100,6 +100,8 @@ pub fn family_programs() -> Vec<Program> {
         Op::RemoveFile(m.clone()),
         Op::CreateFile(m.clone(), Arc::new(b"N".to_vec())),
         Op::Exists(m.clone()),
+        Op::Metadata(m.clone()),
+        Op::Read(m.clone()),
         Op::ReadDir("/a".to_string()),
         Op::CreateDir(child.clone()),
         Op::RemoveDir(child),
@@ -374,7 +376,7 @@ pub fn replay(v: &Value) -> CaseResult {
     }
 }
 
-const RULE: &str = "programs of 2..3 threads x 1..3 calls from {create_dir, write session (create_file+write_all+drop), append session, remove_file, remove_dir, exists, metadata, read_dir, read session} over a universe of 4 directory paths, 4 file paths and 2 paths used by both kinds of calls, with overlapping prefixes, optionally pre-populated; each program's schedule tree (decision at every lock acquisition of MemoryFS and every call boundary) is enumerated depth-first with iterative preemption bounding up to the tier's cap (exhaustive when it fits), then random schedules; additionally the systematic family of all 2-thread (1 call || 2 calls) programs over 9 calls around one hot path that changes type (x 3 initial states = 2187 programs; all in thorough, 1000 sampled in quick); oracle: (per-call results, final tree) of every explored schedule must be among the results of the sequential executions (all program-order-respecting interleavings of whole calls on the reference model, cross-checked against a single-threaded run of the real MemoryFS), final tree well-formed, no panic, every step reaches its next yield point within 10 s; non-trivial = program in which two threads with a mutator each touch a common path or a parent/child pair, explored with >=1 preemption; evaluations = scheduled executions";
+const RULE: &str = "programs of 2..3 threads x 1..3 calls from {create_dir, write session (create_file+write_all+drop), append session, remove_file, remove_dir, exists, metadata, read_dir, read session} over a universe of 4 directory paths, 4 file paths and 2 paths used by both kinds of calls, with overlapping prefixes, optionally pre-populated; each program's schedule tree (decision at every lock acquisition of MemoryFS and every call boundary) is enumerated depth-first with iterative preemption bounding up to the tier's cap (exhaustive when it fits), then random schedules; additionally the systematic family of all 2-thread (1 call || 2 calls) programs over 11 calls around one hot path that changes type (x 3 initial states = 3993 programs; all in thorough, 2500 sampled in quick); oracle: (per-call results, final tree) of every explored schedule must be among the results of the sequential executions (all program-order-respecting interleavings of whole calls on the reference model, cross-checked against a single-threaded run of the real MemoryFS), final tree well-formed, no panic, every step reaches its next yield point within 10 s; non-trivial = program in which two threads with a mutator each touch a common path or a parent/child pair, explored with >=1 preemption; evaluations = scheduled executions";
 
 pub fn run(ctx: &RunCtx) -> i32 {
     // a single case explores thousands of schedules: keep shrinking short
@@ -386,7 +388,7 @@ pub fn run(ctx: &RunCtx) -> i32 {
         return 1;
     }
     let (cap, max_bound, random_after, programs) = match ctx.tier {
-        Tier::Quick => (3000u64, 2usize, 300u64, 192u32),
+        Tier::Quick => (3000u64, 2usize, 300u64, 320u32),
         Tier::Thorough => (40_000, 3, 3000, 1200),
     };
     let known_open = crate::findings::open_for("C16").iter().any(|f| f.trigger == "memfs:session-open-then-publish");
@@ -424,7 +426,7 @@ pub fn run(ctx: &RunCtx) -> i32 {
             Tier::Quick => {
                 let mut s = ctx.seed;
                 let mut v = vec![];
-                for _ in 0..1000 {
+                for _ in 0..2500 {
                     s = crate::util::mix(s, 0xFA11);
                     v.push(fam[(s % total as u64) as usize].clone());
                 }
